@@ -356,6 +356,41 @@ def rule_segment_positive(ctx: Ctx, clause: str = "C03.15") -> RuleResult:
     return rr
 
 
+_KEY_FIRST_OK: dict[str, str] = {}
+
+
+def rule_memo_key_last(ctx: Ctx) -> RuleResult:
+    """'the row count reported for a width equals the number of lines rendered at that width': Text keeps the layout of
+    the last width (_cache_translation under the key _cache_maxcol).  The key says what the stored value belongs to,
+    so it is written after the value: a layout() that raises in between (a custom layout, a UnicodeWarning turned
+    into an error) must leave the old pair intact - with the key written first the old translation is filed under
+    the new width and the next rows() answers from it (fix 1a1af51: rows((3,)) == 1 for a text that needs 4).  In
+    every widget method that stores a width key from its parameter and a value computed by a call, the key store is
+    dominated by the value store."""
+    p = ctx.p
+    rr = RuleResult("ORDER", "C03.21", "a width-keyed memo stores its key after the value it describes", floor=1)
+    for fi in p.functions.values():
+        if not fi.module.name.startswith("urwid.widget") or fi.is_lambda or not fi.self_name:
+            continue
+        cfg = None
+        keys = [n for n in fi.own_nodes() if isinstance(n, ast.Assign) and len(n.targets) == 1 and isinstance(n.targets[0], ast.Attribute) and n.targets[0].attr.startswith("_cache_") and isinstance(n.value, ast.Name) and n.value.id in fi.params]
+        vals = [n for n in fi.own_nodes() if isinstance(n, ast.Assign) and len(n.targets) == 1 and isinstance(n.targets[0], ast.Attribute) and isinstance(n.targets[0].value, ast.Name) and n.targets[0].value.id == fi.self_name and isinstance(n.value, ast.Call) and any(isinstance(x, ast.Name) and x.id in {k.value.id for k in keys} for x in ast.walk(n.value))]
+        if not keys or not vals:
+            continue
+        cfg = cfg_of(fi)
+        for k in keys:
+            kn = nodes_where(cfg, lambda x, k=k: x is k.targets[0])
+            vn = [n for v in vals for n in nodes_where(cfg, lambda x, v=v: x is v.targets[0])]
+            ok = bool(kn) and all(cfg.dominated(n, vn) for n in kn)
+            rr.inst(f"{short(fi)}: {norm(k, 40)}", True, {"function": short(fi), "key": norm(k, 40), "values": [norm(v, 50) for v in vals], "key_after_value": ok})
+            if not ok:
+                if short(fi) in _KEY_FIRST_OK:
+                    rr.exceptions_used.append(f"{short(fi)} - {_KEY_FIRST_OK[short(fi)]}")
+                    continue
+                rr.add(finding("ORDER", fi, k, f"`{norm(k, 40)}` is stored before `{norm(vals[0], 50)}`: if that call raises, the memo keeps the old value under the new key and the next lookup for this width answers from the layout of another width (rows() / render() disagree with the text)", construct=f"{fi.name}: memo key stored before its value"))
+    return rr
+
+
 def _c01():
     from . import c01
 
@@ -395,6 +430,7 @@ def run(ctx: Ctx):
         _as(c11.rule_one_decoder(ctx), "C03.18"),
         _as(c11.rule_memo_globals(ctx), "C03.19"),
         _as(_c01().rule_pad_segment_nonzero(ctx), "C03.20"),
+        rule_memo_key_last(ctx),
         loopfresh.run_loopfresh(p, "C03.12", "C03", floor=6),
         offstep.run_offstep(p, "C03.10", [f.qualname for f in p.modules[TL].functions], floor=5),
     ]
@@ -402,6 +438,7 @@ def run(ctx: Ctx):
 
 _T = "urwid/text_layout.py"
 MUTANTS = [
+    Mut("text-memo-key-first", "urwid/widget/text.py", "Text._update_cache_translation", "        self._cache_translation = self.layout.layout(text, maxcol, self._align_mode, self._wrap_mode)\n        self._cache_maxcol = maxcol\n", "        self._cache_maxcol = maxcol\n        self._cache_translation = self.layout.layout(text, maxcol, self._align_mode, self._wrap_mode)\n", "ORDER|widget.text.Text._update_cache_translation|_update_cache_translation: memo key stored before its value"),
     Mut("ellipsis-width-measured-on-the-str", _T, "StandardTextLayout._calculate_trimmed_segments", "        ellipsis_width = calc_width(ellipsis_char, 0, len(ellipsis_char))\n        while", "        ellipsis_width = _get_width(ellipsis_string)\n        while", "PAIR|text_layout.StandardTextLayout._calculate_trimmed_segments|insert segment width"),
     Mut("ellipsis-inserted-without-width-test", _T, "StandardTextLayout._calculate_trimmed_segments", "if wrap == \"ellipsis\" and screen_columns > width and ellipsis_width:", "if wrap == \"ellipsis\" and screen_columns > width:", "GUARD|text_layout.StandardTextLayout._calculate_trimmed_segments"),
     Mut("clip-line-of-zero-width-chars", _T, "StandardTextLayout._calculate_trimmed_segments", "            if idx != end_off and screen_columns > 0:", "            if idx != end_off:", "GUARD|text_layout.StandardTextLayout._calculate_trimmed_segments"),
